@@ -4,6 +4,7 @@ import (
 	"fmt"
 	"math/rand"
 	"reflect"
+	"strings"
 
 	bexpr "github.com/hashicorp/go-bexpr"
 
@@ -216,7 +217,8 @@ func c17Check(c *mon.Ctx, text string, in interface{}, cname string, describe fu
 		// index; for a map the error of one of its failing entries
 		switch rv.Kind() {
 		case reflect.Slice, reflect.Array:
-			if firstErr != "" && x.err.Error() != firstErr {
+			// (contained in, so that an implementation may add context to it)
+			if firstErr != "" && !strings.Contains(x.err.Error(), firstErr) {
 				dd := d()
 				dd["error_returned"], dd["error_of_first_failing_element"] = x.err.Error(), firstErr
 				c.Violation("C17 not-the-first-error container="+cname, "Execute returned an error other than that of the first element whose evaluation fails", dd)
@@ -227,7 +229,13 @@ func c17Check(c *mon.Ctx, text string, in interface{}, cname string, describe fu
 				c.Count("first_error_identity_checked_among_different_errors")
 			}
 		case reflect.Map:
-			if len(errTexts) > 0 && !errTexts[x.err.Error()] {
+			found := false
+			for t := range errTexts {
+				if strings.Contains(x.err.Error(), t) {
+					found = true
+				}
+			}
+			if len(errTexts) > 0 && !found {
 				dd := d()
 				dd["error_returned"] = x.err.Error()
 				c.Violation("C17 error-of-no-element container="+cname, "Execute returned an error that no entry's evaluation produces", dd)
